@@ -372,6 +372,12 @@ func (s *Set) c07() {
 	st := fmt.Sprintf("phase=%s reason=%s step=%d state=%s", s.phase, s.reason, s.step, s.state)
 	if strings.HasPrefix(r.StopReason, "stalled") {
 		s.violate("C07", fmt.Sprintf("c07:lost-wakeup:%s/%s:%s/%s", s.S.Kind, s.S.Style, s.reason, s.state), "nothing is enabled (no queued key, no timer, environment quiescent) but the rollout is not terminal: "+st, nil, map[string]interface{}{"trace": tailOf(r.Trace, 80)})
+	} else if strings.HasPrefix(r.StopReason, "runaway object growth") {
+		mode := "canary-service"
+		if s.canary == s.stable {
+			mode = "no-canary-service"
+		}
+		s.violate("C07", fmt.Sprintf("c07:runaway-object-growth:%s:%s", mode, growthProvider(s.S.Provider)), "an object keeps growing with every reconcile instead of reaching a fixed point: "+r.StopReason+"; "+st, nil, map[string]interface{}{"trace": tailOf(r.Trace, 40)})
 	} else if r.StopReason == "budget exhausted" {
 		s.violate("C07", fmt.Sprintf("c07:budget-exceeded:%s/%s:%s/%s", s.S.Kind, s.S.Style, s.reason, s.state), fmt.Sprintf("terminal state not reached within %d actions: %s", r.Budget, st), nil, map[string]interface{}{"trace": tailOf(r.Trace, 80)})
 	}
@@ -525,7 +531,7 @@ func (s *Set) c05() {
 	if s.publishedDuringCleanup && s.phase == "Healthy" {
 		tot, _ := s.podsByImage(v)
 		if held(wl, s.S.Kind) && tot[workloadImage(wl)] == 0 {
-			s.violate("C05", fmt.Sprintf("c05:revision-published-during-cleanup-never-released:%s/%s", s.S.Kind, s.S.Style), fmt.Sprintf("a revision (%s) published while the cleanup of the completed release was running is never released: the Rollout is Healthy, the workload stays held (%s) on pods %v", workloadImage(wl), holdStr(wl, s.S.Kind), tot), nil, s.Projection(v))
+			s.violate("C05", "c05:revision-published-during-cleanup-never-released", fmt.Sprintf("%s/%s: a revision (%s) published while the cleanup of the completed release was running is never released: the Rollout is Healthy, the workload stays held (%s) on pods %v", s.S.Kind, s.S.Style, workloadImage(wl), holdStr(wl, s.S.Kind), tot), nil, s.Projection(v))
 			return
 		}
 	}
@@ -582,6 +588,16 @@ func (s *Set) c05() {
 			bad("hpa.scaleTargetRef.name", got, s.S.Name)
 		}
 	}
+	// the user's routing (interpreted: which Service gets which share / match from which source) is what it was
+	if s.origRoutes != "" && s.S.HasTraffic() {
+		if now := jsonStr(interp.Routes(v, s.ns)); now != s.origRoutes {
+			mode := "canary-service"
+			if s.canary == s.stable {
+				mode = "no-canary-service"
+			}
+			s.violate("C05", fmt.Sprintf("c05:not-restored:routes:%s:%s", mode, providerKind(s.S.Provider)), fmt.Sprintf("after the rollout ended (%s) the gateway resources route %s, before the release they routed %s", exit, now, s.origRoutes), nil, s.Projection(v))
+		}
+	}
 	// converged to the user's desired revision
 	tot, ready := s.podsByImage(v)
 	img := workloadImage(wl)
@@ -589,6 +605,14 @@ func (s *Set) c05() {
 	if len(tot) != 1 || tot[img] != R || ready[img] != R {
 		s.violate("C05", fmt.Sprintf("c05:not-converged:%s/%s:%s", s.S.Kind, s.S.Style, exit), fmt.Sprintf("after the rollout ended (%s) and the cluster went quiet, pods are %v (ready %v), the user wants %d x %s", exit, tot, ready, R, img), nil, s.Projection(v))
 	}
+}
+
+// growthProvider names the provider kind whose object can grow (composite providers: the Gateway API part).
+func growthProvider(p string) string {
+	if strings.Contains(p, "gateway") {
+		return "gateway"
+	}
+	return providerKind(p)
 }
 
 func providerKind(p string) string {
